@@ -7,9 +7,11 @@ import (
 	"github.com/bronlabs/bron-crypto/pkg/base/algebra/constructions"
 	"github.com/bronlabs/bron-crypto/pkg/commitments/indcpacom"
 	"github.com/bronlabs/bron-crypto/pkg/encryption/elgamal"
+	"github.com/bronlabs/bron-crypto/pkg/proofs/dlog/batch_schnorr"
 	schnorrpok "github.com/bronlabs/bron-crypto/pkg/proofs/dlog/schnorr"
 	"github.com/bronlabs/bron-crypto/pkg/proofs/elgamal/elcomop"
 	"github.com/bronlabs/bron-crypto/pkg/proofs/elgamal/elog"
+	"github.com/bronlabs/bron-crypto/pkg/proofs/sigma/compiler"
 	"github.com/bronlabs/bron-crypto/pkg/proofs/sigma/compose/sigand"
 
 	"verif/engine/symalg"
@@ -201,4 +203,41 @@ func c08Elog(env *SymEnv) {
 		fsBinding(env, pfx, p, x, w, ox)
 	}
 	env.Reach(pfx + "/done")
+}
+
+// c08Compilers: the Fischlin and randomised-Fischlin compilers over Schnorr (k = 1) or batch
+// Schnorr (k ≥ 2: special soundness k+1, so the compilers' parameters b, t, ρ change with k). The
+// provers' searches hash interned encodings of symbolic responses; the hashes run for real, so the
+// search is a concrete loop and the proof a list of (commitment, challenge, response) triples with
+// symbolic group / field members.
+func c08Compilers(env *SymEnv, cname compiler.Name, k int) {
+	env.AssumeDrawsNonZero()
+	group := env.R.Group()
+	g := group.Generator()
+	pfx := fmt.Sprintf("C08.compiled[k=%d]", k)
+	if k == 1 {
+		p, err := schnorrpok.NewProtocol[sG, sF](g, env.Reader("prover"))
+		if !env.Check(pfx+"/protocol-ok", err == nil, fmt.Sprint(err)) {
+			return
+		}
+		wv := env.Scalar("w")
+		x := schnorrpok.NewStatement[sG, sF](g.ScalarOp(wv))
+		niBinding(env, pfx, cname, p, x, schnorrpok.NewWitness(wv), schnorrpok.NewStatement[sG, sF](g.ScalarOp(wv.Add(env.Field().One()))))
+		env.Reach("compiled-done")
+		return
+	}
+	p, err := batch_schnorr.NewProtocol[sG, sF](k, group, env.Reader("prover"))
+	if !env.Check(pfx+"/protocol-ok", err == nil, fmt.Sprint(err)) {
+		return
+	}
+	ws := make([]sF, k)
+	xs := make([]sG, k)
+	for i := range ws {
+		ws[i] = env.Scalar(fmt.Sprintf("w%d", i))
+		xs[i] = g.ScalarOp(ws[i])
+	}
+	xs2 := append([]sG(nil), xs...)
+	xs2[k-1] = xs2[k-1].Op(g)
+	niBinding(env, pfx, cname, p, batch_schnorr.NewStatement[sG, sF](g, xs...), batch_schnorr.NewWitness(ws...), batch_schnorr.NewStatement[sG, sF](g, xs2...))
+	env.Reach("compiled-done")
 }
